@@ -555,6 +555,12 @@ def _ivg_check(c):
     xs = safe_points(c, V, h)
     if not xs:
         return None
+    # decoys first: other solver objects with the same states, window and time but another closure (JWL) and another
+    # table size.  What they return is not looked at; the ideal-gas solve that follows must not inherit anything from
+    # them (seeded C07-8: a class-level cache of driven problems keyed by the twelve documented values only)
+    for extra in (dict(A=SHYUE['A'], B=SHYUE['B'], R1=SHYUE['R1'], R2=SHYUE['R2'], r0=SHYUE['r0'], e0=0.0, problem='JWL'),
+                  dict(num_int_pts=101)):
+        plain_solve(dict(c, **extra), xs)
     fb, sb = plain_solve(c, xs)
     fa, sa = plain_solve(c, xs, cls=IG)
     if fa is None or fb is None:
